@@ -156,7 +156,13 @@ def compare(script, per_op, prop, line_lo, line_hi, counters):
     hist_epoch = None
 
     def fail(klass, sig, detail, line, facts=None, pr=None):
-        failures.append({"property": pr or prop, "world": "B", "class": klass, "signature": sig, "detail": detail,
+        if pr is None:
+            pr = {"could_write_mismatch": "C03", "try_write_mismatch": "C03", "write_effect_mismatch": "C03",
+                  "write_to_absent_element": "C03", "write_path_missing_in_view": "C03",
+                  "known_value_changed": "C01", "valid_message_not_ok": "C01"}.get(klass, prop)
+        if prop == "C04" and pr == "C04" and klass != "process_aborted":
+            pr = "C01"  # in the C04 check only the health of the process is C04's own oracle
+        failures.append({"property": pr, "world": "B", "class": klass, "signature": sig, "detail": detail,
                          "line": line, "op_no": script.op_of_line[line - 1], "facts": facts or {}})
 
     for line in range(line_lo, line_hi + 1):
@@ -195,10 +201,10 @@ def compare(script, per_op, prop, line_lo, line_hi, counters):
                     if exp.get("restored"):
                         fail("restored_view_differs_from_original", [facts["kind"], facts.get("scalar")],
                              {"key": key, "original": want, "restored": have}, line, facts, pr="C06")
-                    elif prop in ("C01", "C03", "C20", "C06"):
+                    else:
                         # what a view reports over given bytes is C01's subject; the other checks use the
                         # observation as the post-state of their own operation
-                        owner = "C01" if (prop == "C01" or facts.get("array_extent_exceeds_backing")) else prop
+                        owner = "C01" if (prop in ("C01", "C04") or facts.get("array_extent_exceeds_backing")) else prop
                         fail("observation_mismatch", [facts["kind"]], {"key": key, "expected": want, "observed": have}, line,
                              facts, pr=owner)
                     mismatch = True
@@ -337,14 +343,12 @@ def scenarios_for(prop, rng, module, cfg):
     return out
 
 
-def execute(module, build, want, scenarios, prop, workdir, keep=False):
-    """Builds the driver and runs the scenarios; returns (failures, counters, info)."""
-    counters = {}
+def build_with_fallback(module, want, build, workdir):
+    """Builds the driver; when a generated method does not compile, records that and falls back
+    feature by feature so that one uncompilable method does not hide everything else."""
     failures = []
     binary, stage, msg = build_driver(module, want, build, workdir)
     if binary is None and stage == "cxx" and want:
-        # Fall back feature by feature so that one uncompilable method does not hide everything.
-        counters["driver_build_fallback"] = 1
         for w in list(want):
             b2, s2, m2 = build_driver(module, [w], build, workdir + f"-{w}")
             shutil.rmtree(workdir + f"-{w}", ignore_errors=True)
@@ -357,6 +361,17 @@ def execute(module, build, want, scenarios, prop, workdir, keep=False):
                                                                    "params": any(s.params for s in module.structs)}})
                 want = [x for x in want if x != w]
         binary, stage, msg = build_driver(module, want, build, workdir)
+    return binary, stage, msg, want, failures
+
+
+def execute(module, build, want, scenarios, prop, workdir, keep=False):
+    """Builds the driver and runs the scenarios; returns (failures, counters, info)."""
+    counters = {}
+    failures = []
+    binary, stage, msg, want, bfails = build_with_fallback(module, want, build, workdir)
+    failures.extend(bfails)
+    if bfails:
+        counters["driver_build_fallback"] = 1
     info = {"stage": stage, "want": want}
     if binary is None:
         if stage == "cxx":
@@ -484,7 +499,7 @@ def minimise_task(task):
         f = _same(fs, want)
         return {"scenario": [], "reproduced": f is not None, "failure": f, "tests": 1}
     ops = task["scenarios"][want["scenario"]][: want["op_in_scenario"] + 1]
-    binary, stage, msg = build_driver(module, task["want_features"], build, workdir)
+    binary, stage, msg, _want, _bf = build_with_fallback(module, list(task["want_features"]), build, workdir)
     if binary is None:
         return {"scenario": ops, "reproduced": False, "tests": 0, "note": "driver did not build in minimisation"}
     tests = [0]
